@@ -14,7 +14,7 @@ lock/cell/node greater than everything the thread holds (or, for the reentrant l
 try_lock variants may target anything.
 """
 import os, json
-import vcheck, conc_check
+import vcheck, conc_check, conc_windows
 
 MODES = [
     {"mode": "spin", "extract": "Extract_SpinLock.v", "model": "Model/SpinLock.v", "what": "cds::sync::spin_lock", "anchor": "cds/sync/spinlock.h"},
@@ -139,6 +139,60 @@ def gen_cases(rng, mode, n, prefix="g"):
         c["id"] = "%s%s%d" % (prefix, mode, i)
         c["mode"] = mode
         cases.append(c)
+    return cases
+
+
+# ------------------------------------------------------------------------------------------------------
+# model-guided window schedules (lib/conc_windows.py), per model.  A write is any access that is not a load (exchange,
+# CAS, fetch-add, plain store: the unlock of a spin lock, the release of a monitor's ref/spin word are stores).  The
+# victim is stalled right before one of its first 8 writes (before the exchange that takes the lock, before the unlock,
+# before the CAS on a node's ref/spin word, inside the section), the actor runs through one of its first 4 writes
+# (a thread spinning on a taken lock writes for ever) or to its end, optionally a third thread in between / a second
+# victim (pool monitor: two threads fail the ref/spin CAS and go round its retry loop), then r victim steps.
+# All programs are deadlock-free (blocking acquisitions in ascending order).
+WINDOW_TEMPLATES = {
+    "spin": [([1], [[[1, 0]], [[1, 0]], [[2, 0]]]),
+             ([1], [[[1, 0], [2, 0]], [[2, 0], [1, 0]]]),
+             ([2], [[[1, 0], [1, 1]], [[1, 1], [1, 0]], [[2, 0], [2, 1]]])],
+    "re":   [([1], [[[0, 0, 0, 0]], [[0, 0]], [[1, 0]]]),
+             ([1], [[[0, 0, 1, 0]], [[3, 0]], [[0, 0, 0, 0, 0, 0]]]),
+             ([2], [[[0, 0, 0, 1]], [[0, 1]], [[3, 0, 1, 1]]])],
+    "arr":  [([2], [[[0, 0]], [[0, 2]], [[2, 0]]]),
+             ([2], [[[3, 1]], [[1, 1]], [[0, 0, 0, 1]]]),
+             ([1], [[[2, 0]], [[2, 0]], [[0, 5]]])],
+    "inj":  [([1], [[[0, 0]], [[3, 0]], [[0, 0]]]),
+             ([2], [[[0, 0, 3, 1]], [[0, 1]], [[3, 0]]])],
+    "pool": [([1, 1], [[[0, 0]], [[3, 0]], [[0, 0]]]),
+             ([2, 2], [[[0, 0, 3, 1]], [[0, 1]], [[3, 0]]]),
+             ([1, 0], [[[0, 0], [0, 0]], [[3, 0], [0, 0]], [[0, 0]]]),
+             ([2, 5], [[[0, 0], [3, 1]], [[0, 1], [0, 0]], [[3, 0, 0, 1]], [[0, 1]]])],
+}
+WINDOW_INFO = {}
+
+
+def gen_window_cases(ctx, mode, model, rng, quick):
+    wdir = os.path.join(ctx.work, "wprobe_" + mode)
+    os.makedirs(wdir, exist_ok=True)
+    cases = []
+    info = {"templates": len(WINDOW_TEMPLATES[mode]), "enumerated": 0, "model_probes": 0}
+    for ti, (c0, tpl) in enumerate(WINDOW_TEMPLATES[mode]):
+        cfg = [c0[0], SPIN_FUEL] + list(c0[1:])
+        nth = len(tpl)
+        threads, sw, inf = conc_windows.windows(model, wdir, cfg, tpl, kinds=conc_windows.ALL_WRITE_KINDS, max_r=6, max_stalls=8, max_actor=4,
+                                                third=not quick and nth > 2, double=(mode == "pool" and nth > 2), rs2=(0, 2, 4, 7), rs_d=(0, 1, 3, 6) if quick else None, double_stalls=2 if quick else 4, tag="w%s%d" % (mode, ti))
+        info["enumerated"] += len(sw)
+        info["model_probes"] += inf["model_probes"]
+        if quick:
+            sd = [x for x in sw if x[0].startswith("d_")]
+            sw = conc_windows.subsample(rng, [x for x in sw if not x[0].startswith("d_")], 30) + conc_windows.subsample(rng, sd, 20)
+        for name, sched in sw:
+            cases.append({"id": "w%s%d_%s" % (mode, ti, name), "mode": mode, "cfg": cfg, "threads": threads, "sched": sched, "sk": "window"})
+    if not quick and len(cases) > 10000:
+        # thorough tier: the full enumeration, up to a budget (a seeded subsample beyond it; 'enumerated' says how many there are)
+        cases = conc_windows.subsample(rng, cases, 10000)
+        info["thorough_budget"] = 10000
+    info["cases"] = len(cases)
+    WINDOW_INFO[mode] = info
     return cases
 
 
@@ -316,6 +370,10 @@ def prepare_mode(ctx, md):
                 cases.append(c)
     ncorpus = len(cases)
     cases += gen_cases(ctx.rng, mode, n)
+    t0 = os.times()
+    cases += gen_window_cases(ctx, mode, model, ctx.rng.fork(), not ctx.thorough())
+    t1 = os.times()
+    WINDOW_INFO[mode]["generation_cpu_s"] = round((t1.user + t1.system + t1.children_user + t1.children_system) - (t0.user + t0.system + t0.children_user + t0.children_system), 1)
     return {"md": md, "model": model, "cases": cases, "ncorpus": ncorpus}
 
 
@@ -369,6 +427,15 @@ def check_mode(ctx, p, impl, stats):
         shapes.add(sh)
         if contended(mode, i):
             st["contended"] += 1; cshapes.add(sh)
+        if c.get("sk") == "window":
+            wi = WINDOW_INFO.setdefault(mode, {})
+            wi["cases_run"] = wi.get("cases_run", 0) + 1
+            wi["impl_steps"] = wi.get("impl_steps", 0) + len(i["lines"])
+            fcas = conc_windows.failed_cas(i["lines"])
+            wi["failed_cas_events"] = wi.get("failed_cas_events", 0) + fcas
+            wi["cases_with_failed_cas"] = wi.get("cases_with_failed_cas", 0) + (1 if fcas else 0)
+            wi["cases_that_saw_a_lock_taken"] = wi.get("cases_that_saw_a_lock_taken", 0) + (1 if contended(mode, i) else 0)
+            wi["cases_with_failed_try"] = wi.get("cases_with_failed_try", 0) + (1 if any(l.endswith(" ev fail") or " ev fail " in l or l.endswith(" ev ret 0") for l in i["lines"]) else 0)
         for ft in features(mode, i):
             st["features"][ft] = st["features"].get(ft, 0) + 1
         if bad_end(i) and "hangs" in bad_end(i) and st.get("hang_confirmations", 0) < 3:
@@ -379,6 +446,8 @@ def check_mode(ctx, p, impl, stats):
                 i = one[c["id"]]; st["slow_cases"] = st.get("slow_cases", 0) + 1
         finds = monitor_findings(mode, i)
         be = bad_end(i)
+        if c.get("sk") == "window" and (finds or be):
+            WINDOW_INFO[mode]["rejected_by_monitor_or_abandoned"] = WINDOW_INFO[mode].get("rejected_by_monitor_or_abandoned", 0) + 1
         for what, detail in finds:
             st["monitor_violations"] += 1; found_real = True
             if ctx.__dict__.setdefault("_seen", set()).__contains__(what):
@@ -403,6 +472,8 @@ def check_mode(ctx, p, impl, stats):
         if d is not None:
             st["diverged"] += 1
             first_div = first_div or (c, d)
+            if c.get("sk") == "window":
+                WINDOW_INFO[mode]["diverged_from_model"] = WINDOW_INFO[mode].get("diverged_from_model", 0) + 1
     st["distinct_logs"] = len(shapes); st["distinct_contended"] = len(cshapes)
     if first_div is not None and not found_real:
         # the correspondence broke: look for a real failure of the property with the monitors over more seeds
@@ -482,13 +553,14 @@ def run(ctx):
     ctx.coverage.update({
         "evaluations": tot("cases") if stats else 0,
         "distinct_nontrivial": tot("distinct_contended") if stats else 0,
-        "rule": "program x schedule pairs per model (2-4 threads, 1-3 locks/cells/nodes, 1-2 operations each = nests of depth 1-3 of lock / try_lock / try_lock(n) / lock_all / scoped_lock; uniform, bursty and run-then-switch schedules from one splitmix64 stream); distinct = distinct implementation event logs; non-trivial = in the implementation's log some thread observed a lock taken: an exchange on a spin word read 'true' or a compare_exchange failed",
+        "rule": "program x schedule pairs per model (2-4 threads, 1-3 locks/cells/nodes, 1-2 operations each = nests of depth 1-3 of lock / try_lock / try_lock(n) / lock_all / scoped_lock; uniform, bursty and run-then-switch schedules from one splitmix64 stream) plus model-guided window schedules on fixed deadlock-free templates (victim stalled right before one of its writes, actor through one of its writes; see window_schedules); distinct = distinct implementation event logs; non-trivial = in the implementation's log some thread observed a lock taken: an exchange on a spin word read 'true' or a compare_exchange failed",
         "distinct_event_logs": tot("distinct_logs") if stats else 0,
         "impl_steps_compared": tot("steps") if stats else 0,
         "diverged": tot("diverged") if stats else 0,
         "corpus_cases": tot("corpus") if stats else 0,
         "traces_validated_against_impl": (tot("cases") - tot("diverged")) if stats else 0,
         "per_model": stats,
+        "window_schedules": WINDOW_INFO,
         "samples": samples,
         "modelled": "cds::sync::spin_lock (try_lock, lock, unlock); reentrant_spin_lock (lock, try_lock, try_lock(n), unlock); lock_array<spin_lock, mod_select_policy> (lock, try_lock, unlock, lock_all, unlock_all, std::unique_lock specialisation); injecting_monitor<spin_lock> and pool_monitor<trivial LIFO pool, backoff::empty, false> (lock, unlock, monitor_scoped_lock)",
     })
